@@ -147,7 +147,8 @@ Build(st, sl, rg) ==
     [] st.op = "Join"       -> WStack(JoinV(SlotVals(st.src, sl)))
     [] st.op = "JoinPkg"    -> JoinV(SlotVals(st.src, sl))             \* join.Join, no stack
     [] st.op = "GoJoin"     -> GoJoinV(SlotVals(st.src, sl))
-    [] st.op = "UMulti"     -> V(IF st.a = <<>> THEN "uMulti" ELSE "uMultiIs", st.s, st.a, SlotVals(st.src, sl), <<>>)
+    [] st.op = "UMulti"     -> IF st.a = <<<<"REG">>>> THEN V("uRegMulti", st.s, <<>>, SlotVals(st.src, sl), <<>>)
+                               ELSE V(IF st.a = <<>> THEN "uMulti" ELSE "uMultiIs", st.s, st.a, SlotVals(st.src, sl), <<>>)
     [] st.op = "GoWrap2"    -> V("goWrapErrors", Text(e) \o st.s \o Text(x), <<>>, <<e, x>>, <<>>)
     [] st.op = "GrpcStatus" -> V("grpcStatus", <<"L_rpcNotFound">> \o st.s, <<>>, <<>>, <<>>)
     \* ---- transfer
@@ -201,7 +202,7 @@ KeyWrap(st) == st.op = "UWrap" /\ st.a[1] = <<"uKeyWrap">>
 StepU(st, sl) ==
   (IF st.op \in SUnsafeOps /\ ~KeyWrap(st) THEN WordsIn(st.s) ELSE {})
   \cup PartsU(st.parts)
-  \cup (IF st.op = "UMulti" THEN WordsInAll(st.a) ELSE {})
+  \cup (IF st.op = "UMulti" /\ st.a # <<<<"REG">>>> THEN WordsInAll(st.a) ELSE {})
   \cup (IF st.op = "GoWrap" \/ (st.op = "ULeaf" /\ st.a[1] \notin {<<"uSafeDetLeaf">>, <<"uKeyLeaf">>})
         THEN WordsInAll(st.a) ELSE {})
   \cup (IF st.op = "WithContextTags"
